@@ -205,6 +205,7 @@ func c08(e *Env) {
 			ob.Check(sends == 1, core.FuncName(fn), "one channel send, no go, no select", fmt.Sprintf("%d channel sends in the send path (exactly 1 expected)", sends))
 		}
 	}
+	e.positiveControls("go-or-select")
 	ob3 := r.Ob("R3", "createTasks:single-sender", "the task-creation goroutine starts no further goroutine (tasks are fed to Process.Run by one sequential sender)")
 	if ct := p.DeclaredMethod("scipipe", "Process", "createTasks"); ct != nil {
 		for _, b := range ct.Blocks {
